@@ -169,9 +169,18 @@ func (s *Set) getTemplate(templatePath string, cacheAfterParsing bool, loading [
 
 func (s *Set) getTemplateFromCache(templatePath string) (t *Template, ok bool) {
 	// check path with all possible extensions in cache
+	probedAsRequested := false
 	for _, extension := range s.extensions {
 		canonicalPath := templatePath + extension
 		if t := s.cache.Get(canonicalPath); t != nil {
+			return t, true
+		}
+		probedAsRequested = probedAsRequested || extension == ""
+	}
+	// templates are remembered under the path they were requested with, which is not
+	// among the candidates when "" is not a configured extension
+	if !probedAsRequested {
+		if t := s.cache.Get(templatePath); t != nil {
 			return t, true
 		}
 	}
